@@ -1,6 +1,8 @@
 """C05 count and bin_average attribute each sample to exactly its own bin."""
 import itertools
+import os
 import random
+import tempfile
 import warnings
 from fractions import Fraction as Fr
 
@@ -18,7 +20,11 @@ ASSUMPTIONS = ["a reported timestamp is a tick (1 ns, the library's time resolut
                "is read as the exact value of the float and the grid is computed in exact rationals; non-dyadic ones (1/3 ms, 1/30 s ...) only on inputs where no sample lies "
                "within 0.001 ns of a bin edge without being on it and no end within 0.001 ns of a centre (such inputs are counted as float_ambiguous, not checked)",
                "exhaustive cases live on the dyadic lattice 2^-9 s; random cases on decimal lattices incl. odd numbers of ns and centres on / half a tick before / half a tick "
-               "beyond the interval end"]
+               "beyond the interval end",
+               "argument-form cases: data are integers exactly representable in their dtype and in float64 (sums exact), a mean is compared with the exact rational to 1e-12 relative "
+               "(it is a float64 quotient); NaN / +-inf data follow IEEE arithmetic (a bin holding a NaN, or both infinities, has mean NaN; one infinity gives that infinity); "
+               "a bin size in a form the signatures do not document (np.float32, np.int64, np.int32, 0-d array; a Python int for bin_average) may raise TypeError / ValueError "
+               "instead of giving the stated result; the dtype of an EMPTY TsGroup's count (no column) is not judged"]
 
 U = 1953125  # 2^-9 s in ticks: dyadic AND a whole number of ns
 UNITS = {"s": 10**9, "ms": 10**6, "us": 10**3}
@@ -196,6 +202,57 @@ def cases(tier, seed):
         ep = [(s, s + rng.randint(1, 4))]
         ts = sorted(rng.randint(s, s + 4) for _ in range(rng.randint(0, 4)))
         out.append({"ts": ts, "ep": ep, "bin": Fr(value) * UNITS[units], "value": value, "units": units, "kind": "below_half_ns"})
+    out += form_kinds(q, seed)
+    return out
+
+
+NOSHIFT = ("us_lattice", "many_intervals", "all_equal")      # kinds that carry their own time placement (shifted() leaves them alone)
+
+
+def form_kinds(q, seed):
+    """extra whole-ns kinds for the ARGUMENT-FORM widening (own rng: the draws of the older kinds are unchanged):
+       us_lattice     - every instant and the bin size a whole number of us (or ms): integer / unsigned time arrays and Python-int bin sizes apply;
+                        origins 0, straddling 0, negative, +-1e5 s
+       many_intervals - 5..12 intervals, many of them holding zero or one sample
+       all_equal      - every timestamp of the series coincides (inside / on the start / on the end / on a bin edge / outside the intervals)"""
+    rng = random.Random(seed * 17 + 5)
+    out = []
+    for _ in range(260 if q else 1500):
+        unit = rng.choice([1000, 1000, 1000, 10**6])
+        b = unit * rng.choice([1, 2, 3, 5, 10, 1000])
+        x = unit * rng.choice([0, 0, -7, -4000, 5, 10**14 // unit, -(10**14 // unit), -(b // unit) * 2])
+        ep = []
+        for i in range(rng.randint(1, 3)):
+            s = x + unit * rng.choice([0 if i == 0 else 1, 1, 2, 10, b // unit])
+            e = s + rng.randint(0, 5) * b + rng.choice([b // 2 if (b // 2) % unit == 0 else b, b, unit, max(unit, b - unit), rng.randint(1, 3 * (b // unit)) * unit])
+            ep.append((s, e))
+            x = e
+        anchors = [s + k * b + d * unit for s, e in ep for k in range(0, 7) for d in (-1, 0, 1)] + [e for _, e in ep] + [s for s, _ in ep]
+        ts = sorted(rng.choice(anchors) for _ in range(rng.randint(0, 10)))
+        out.append({"ts": ts, "ep": ep, "bin": b, "kind": "us_lattice"})
+    for _ in range(60 if q else 300):
+        unit = 1000
+        b = unit * rng.choice([1, 2, 4, 10])
+        x = unit * rng.choice([0, -20, 3, 10**14 // unit])
+        ep = []
+        for i in range(rng.randint(5, 12)):
+            s = x + rng.choice([unit, b, 5 * b])
+            e = s + rng.choice([unit, b // 2, b, 2 * b + unit, 3 * b, 7 * b // 2])
+            ep.append((s, e))
+            x = e
+        anchors = [s + k * b + d * unit for s, e in ep for k in range(0, 4) for d in (-1, 0, 1)] + [e for _, e in ep]
+        ts = sorted(rng.choice(anchors) for _ in range(rng.randint(0, len(ep) + 4)))
+        out.append({"ts": ts, "ep": ep, "bin": b, "kind": "many_intervals"})
+    for _ in range(80 if q else 400):
+        unit = rng.choice([1000, U])
+        b = unit * rng.choice([1, 2, 3])
+        s = unit * rng.choice([0, -5, 4, 1000])
+        e = s + rng.randint(0, 3) * b + rng.choice([b // 2 if (b // 2) % unit == 0 else b, b, unit, 2 * b])
+        ep = [(s, e)]
+        if rng.random() < 0.4:
+            ep.append((e + unit, e + unit + rng.choice([b, 2 * b, unit])))
+        p = rng.choice([s, e, s + b, s + 2 * b, s - unit, e + unit, s + unit, ep[-1][0], ep[-1][1], ep[-1][1] + 3 * unit])
+        out.append({"ts": [p] * rng.randint(1, 4), "ep": ep, "bin": b, "kind": "all_equal"})
     return out
 
 
@@ -203,6 +260,8 @@ OFFS = [0, -3 * U, -1000 * U, 44236800 * U]     # the last one: one day (86400 s
 
 
 def shifted(c, n):
+    if c["kind"] in NOSHIFT:
+        return dict(c)
     o = OFFS[n % len(OFFS)]
     d = dict(c)
     d["ts"] = [t + o for t in c["ts"]]
@@ -362,6 +421,729 @@ def public_case(nap, n, c, inp):
     return out
 
 
+# ---------------------------------------------------------------------------------------------------------------
+# ARGUMENT FORMS (widening).  The abstract input (instants ts, intervals ep, bin size b, all in ns) and the oracle stay the same; what varies is HOW
+# the library is handed them: the form of every time argument, the dtype / content of the data, positional vs keyword vs default parameters, units,
+# the class, the history of the receiver.  The same instants must give the same result.
+CLEAN = (TypeError, ValueError)       # what a bin size in a form the signature does not document (np.float32 / np.int64 / 0-d array) may raise instead
+COUNT_DTYPES = [("omitted", None), ("None", None), ("np.int64", np.int64), ("np.int32", np.int32), ("np.int16", np.int16), ("np.int8", np.int8), ("np.uint8", np.uint8),
+                ("np.uint16", np.uint16), ("np.uint32", np.uint32), ("np.uint64", np.uint64), ("np.float64", np.float64), ("np.float32", np.float32), ("int", int),
+                ("float", float), ("'int32'", "int32"), ("'<u2'", "<u2"), ("dtype('int16')", np.dtype("int16")), ("bool", bool)]
+DATA_FORMS = ["float64", "float32", "int64", "int32", "int16", "int8", "uint8", "uint16", "uint32", "uint64", "bool", "extreme", "nan", "inf", "mixed_inf", "zeros", "all_equal"]
+EXTREME = {"int8": [127, -128], "uint8": [255, 254], "int16": [32767, -32768], "uint16": [65535, 65534], "int32": [2**31 - 1, -2**31], "uint32": [2**32 - 1, 2**32 - 2],
+           "int64": [2**40 + 1, -2**40], "uint64": [2**40 + 1, 2**41], "float32": [2**23 + 1, -2**23]}
+_TMP = []
+
+
+class LazyArray:
+    """a minimal array-like (indexable, iterable, shape / ndim / dtype) that is NOT an ndarray: what the constructors' load_array=False is for (memory-mapped / zarr data)"""
+
+    def __init__(self, a):
+        self.a, self.shape, self.ndim, self.dtype = a, a.shape, a.ndim, a.dtype
+
+    def __getitem__(self, k):
+        return self.a[k]
+
+    def __len__(self):
+        return len(self.a)
+
+    def __iter__(self):
+        return iter(self.a)
+
+
+def tmpdir():
+    if not _TMP:
+        import atexit
+        import shutil
+        _TMP.append(tempfile.mkdtemp(prefix="c05_", dir=C.CACHE if os.path.isdir(C.CACHE) else None))
+        atexit.register(shutil.rmtree, _TMP[0], True)
+    return _TMP[0]
+
+
+def f32_exact(ticks):
+    a = G.arr(ticks)
+    return bool(np.all(a.astype(np.float32).astype(np.float64) == a))
+
+
+def time_forms(ticks):
+    """names of the forms in which the instants `ticks` can be handed over without changing them"""
+    names = ["ndarray", "list", "tuple", "pd_index", "pd_series", "tsindex", "x.t", "float_ms", "float_us", "strided", "readonly"]
+    if all(v % 1000 == 0 for v in ticks):
+        us = [v // 1000 for v in ticks]
+        names += ["int64_us", "list_int_us"]
+        if all(abs(v) < 2**31 for v in us):
+            names.append("int32_us")
+        if all(v >= 0 for v in us):
+            names.append("uint64_us")
+            if all(v < 2**32 for v in us):
+                names.append("uint32_us")
+            if all(v < 2**16 for v in us):
+                names.append("uint16_us")
+        if all(v % 10**6 == 0 for v in ticks):
+            names += ["int64_ms", "list_int_ms"]
+            if all(v >= 0 for v in ticks):
+                names.append("uint64_ms")
+    if len(ticks) and f32_exact(ticks):
+        names.append("float32")
+    return names
+
+
+def make_time(nap, pd, name, ticks):
+    """-> (object, time_units)"""
+    a = G.arr(ticks)
+    if name == "ndarray":
+        return a, "s"
+    if name == "list":
+        return a.tolist(), "s"
+    if name == "tuple":
+        return tuple(a.tolist()), "s"
+    if name == "pd_index":
+        return pd.Index(a), "s"
+    if name == "pd_series":
+        return pd.Series(a), "s"
+    if name == "tsindex":
+        return nap.Ts(a).index, "s"
+    if name == "x.t":
+        return nap.Ts(a).t, "s"
+    if name == "float_ms":
+        return np.asarray(ticks, dtype=np.float64) / 1e6, "ms"
+    if name == "float_us":
+        return np.asarray(ticks, dtype=np.float64) / 1e3, "us"
+    if name == "strided":                       # a non-contiguous view that shares memory with a bigger array
+        return np.repeat(a, 2)[::2], "s"
+    if name == "readonly":
+        r = a.copy()
+        r.setflags(write=False)
+        return r, "s"
+    if name == "float32":
+        return a.astype(np.float32), "s"
+    kind, unit = name.split("_")[0], name.split("_")[-1]
+    f = {"us": 1000, "ms": 10**6}[unit]
+    vals = [int(v // f) for v in ticks]
+    if kind == "list":                          # a list of Python ints
+        return vals, unit
+    return np.asarray(vals, dtype=np.dtype(kind)), unit
+
+
+def ep_forms(ep):
+    names = ["arrays", "lists", "tuples", "2d_array", "dataframe", "float_ms", "float_us", "metadata", "from_iset", "series", "index_and_t", "sliced", "intersected", "saveload", "kw"]
+    pts = [v for se in ep for v in se]
+    if len(ep) == 1:
+        names += ["scalars", "np_scalars", "0d_arrays"]
+    if not ep:
+        names = ["arrays", "lists", "dataframe", "float_ms", "kw", "from_iset"]
+    if ep and all(v % 1000 == 0 for v in pts):
+        names.append("int64_us")
+        if all(v >= 0 for v in pts):
+            names += ["uint64_us"] + (["uint32_us"] if all(v // 1000 < 2**32 for v in pts) else []) + (["uint8_us"] if all(v // 1000 < 2**8 for v in pts) else [])
+        if len(ep) == 1:
+            names += ["int_scalars_us", "np.int64_scalars_us"]
+    if len(ep) == 1 and f32_exact(pts):
+        names.append("np.float32_scalars")
+    return names
+
+
+def make_ep(nap, pd, name, ep):
+    st, en = G.arr([s for s, _ in ep]), G.arr([e for _, e in ep])
+    if name == "arrays":
+        return nap.IntervalSet(st, en)
+    if name == "kw":
+        return nap.IntervalSet(end=en, start=st, time_units="s")
+    if name == "lists":
+        return nap.IntervalSet(st.tolist(), en.tolist())
+    if name == "tuples":
+        return nap.IntervalSet(tuple(st.tolist()), tuple(en.tolist()))
+    if name == "2d_array":
+        return nap.IntervalSet(np.stack([st, en], axis=1))
+    if name == "dataframe":
+        return nap.IntervalSet(pd.DataFrame({"start": st, "end": en}))
+    if name == "float_ms":
+        return nap.IntervalSet(np.asarray([s for s, _ in ep], dtype=np.float64) / 1e6, np.asarray([e for _, e in ep], dtype=np.float64) / 1e6, time_units="ms")
+    if name == "float_us":
+        return nap.IntervalSet(np.asarray([s for s, _ in ep], dtype=np.float64) / 1e3, np.asarray([e for _, e in ep], dtype=np.float64) / 1e3, "us")
+    if name == "metadata":
+        return nap.IntervalSet(st, en, metadata={"label": ["i%d" % i for i in range(len(ep))], "w": list(range(len(ep)))})
+    if name == "from_iset":
+        return nap.IntervalSet(nap.IntervalSet(st, en))
+    if name == "series":
+        return nap.IntervalSet(pd.Series(st), pd.Series(en))
+    if name == "index_and_t":
+        return nap.IntervalSet(nap.Ts(st).index, nap.Ts(en).t)
+    if name == "sliced":                       # history: a bigger set (one more interval far to the right), then the first len(ep) rows
+        far = max(e for _, e in ep) + 10**9
+        big = nap.IntervalSet(np.append(st, far / 1e9), np.append(en, (far + 10**6) / 1e9), metadata={"k": list(range(len(ep) + 1))})
+        return big[0:len(ep)]
+    if name == "intersected":                  # history: intersection with one interval that contains everything
+        lo, hi = min(s for s, _ in ep) - 10**9, max(e for _, e in ep) + 10**9
+        return nap.IntervalSet(st, en).intersect(nap.IntervalSet(lo / 1e9, hi / 1e9))
+    if name == "saveload":
+        path = os.path.join(tmpdir(), "ep.npz")
+        nap.IntervalSet(st, en).save(path)
+        return nap.load_file(path)
+    if name == "scalars":
+        return nap.IntervalSet(float(st[0]), float(en[0]))
+    if name == "np_scalars":
+        return nap.IntervalSet(np.float64(st[0]), end=np.float64(en[0]))
+    if name == "0d_arrays":
+        return nap.IntervalSet(np.array(st[0]), np.array(en[0]))
+    if name == "int_scalars_us":
+        return nap.IntervalSet(int(ep[0][0] // 1000), int(ep[0][1] // 1000), time_units="us")
+    if name == "np.int64_scalars_us":
+        return nap.IntervalSet(np.int64(ep[0][0] // 1000), np.int64(ep[0][1] // 1000), "us")
+    if name == "np.float32_scalars":
+        return nap.IntervalSet(np.float32(st[0]), np.float32(en[0]))
+    kind, unit = name.split("_")
+    return nap.IntervalSet(np.asarray([s // 1000 for s, _ in ep], dtype=np.dtype(kind)), np.asarray([e // 1000 for _, e in ep], dtype=np.dtype(kind)), time_units=unit)
+
+
+def bin_forms(b, units):
+    """forms of the bin size b (whole ns) expressed in `units`: (name, value, documented)"""
+    f = UNITS[units]
+    val = b / f
+    out = [("float", float(val), True), ("np.float64", np.float64(val), True)]
+    if b % f == 0:
+        out += [("int", int(b // f), True), ("np.int64", np.int64(b // f), False), ("np.int32", np.int32(b // f), False)] if b // f < 2**31 else [("int", int(b // f), True)]
+    if float(np.float32(val)) == float(val):
+        out.append(("np.float32", np.float32(val), False))
+    out.append(("0d_array", np.array(float(val)), False))
+    return out
+
+
+def data_columns(rng, dform, n, ncol):
+    """-> (dtype, [column k as a list of Python numbers]): small exact values; column k differs from column 0"""
+    base = [(i * 7 + 3) % 11 for i in range(n)]
+    if dform in ("float64", "float32", "int64", "int32", "int16", "int8"):
+        cols = [[(k + 1) * v - (5 if k % 2 else 0) for v in base] for k in range(ncol)]       # negative values in the odd columns
+        return np.dtype(dform), cols
+    if dform in ("uint8", "uint16", "uint32", "uint64"):
+        return np.dtype(dform), [[(k + 1) * v for v in base] for k in range(ncol)]
+    if dform == "bool":
+        return np.dtype(bool), [[int((v + k) % 3 == 0) for v in base] for k in range(ncol)]
+    if dform == "extreme":                      # the extreme values of a small dtype: a sum kept in the data's dtype would wrap around
+        name = rng.choice(sorted(EXTREME))
+        hi, lo = EXTREME[name]
+        return np.dtype(name), [[(hi if (i + k) % 3 else lo) for i in range(n)] for k in range(ncol)]
+    if dform == "zeros":
+        return np.dtype(rng.choice(["float64", "int64", "uint8"])), [[0] * n for _ in range(ncol)]
+    if dform == "all_equal":
+        return np.dtype(rng.choice(["float64", "int32", "float32"])), [[7] * n for _ in range(ncol)]
+    sp = {"nan": [float("nan")], "inf": [float("inf")], "mixed_inf": [float("inf"), float("-inf"), float("nan"), float("-inf")]}[dform]
+    cols = []
+    for k in range(ncol):
+        col = [float((k + 1) * v) for v in base]
+        for i in range(n):
+            if rng.random() < 0.35:
+                col[i] = rng.choice(sp)
+        cols.append(col)
+    return np.dtype(rng.choice(["float64", "float64", "float32"])), cols
+
+
+def expected_means(ts, col, ep, b):
+    """the statement for one column holding possibly NaN / +-inf, through the statement's own bin attribution (oracle_avg):
+       -> [(2*centre, mean)] with mean = NaN (no sample, or a NaN, or both infinities), +-inf, or the exact Fraction"""
+    fin = oracle_avg(ts, [v if (v == v and abs(v) != float("inf")) else 0 for v in col], ep, b)
+    nn = oracle_avg(ts, [int(v != v) for v in col], ep, b)
+    pi = oracle_avg(ts, [int(v == float("inf")) for v in col], ep, b)
+    ni = oracle_avg(ts, [int(v == float("-inf")) for v in col], ep, b)
+    out = []
+    for j, (c2, cnt, sm) in enumerate(fin):
+        if cnt == 0 or nn[j][2] or (pi[j][2] and ni[j][2]):
+            out.append((c2, float("nan")))
+        elif pi[j][2] or ni[j][2]:
+            out.append((c2, float("inf") if pi[j][2] else float("-inf")))
+        else:
+            out.append((c2, Fr(sm) / cnt))
+    return out
+
+
+def diff_means(got, exp):
+    """got [(tick, value)], exp [(2*centre, NaN | +-inf | Fraction)]"""
+    part = diff_count([(a, 0) for a, _ in got], [(c2, 0) for c2, _ in exp])
+    if part:
+        return part
+    for (_, d), (_, m) in zip(got, exp):
+        if isinstance(m, float):
+            if m != m:
+                if d == d:
+                    return "nan"
+            elif d != m:
+                return "nan" if d != d else "mean"
+        elif d != d:
+            return "nan"
+        elif abs(Fr(float(d)) - m) > Fr(1, 10**12) * max(1, abs(m)):      # the mean is a float64 quotient: 1e-12 relative, nothing else
+            return "mean"
+    return None
+
+
+def history_forms(cls, n_samples=1):
+    h = ["none", "none", "restrict_wide", "restrict_wide", "slice_all", "slice_all", "get_all", "get_all", "saveload", "twice", "twice"]
+    if n_samples:        # (an EMPTY TsdFrame indexed by an empty boolean mask comes back with shape (0, 0): __getitem__, not this property's operations)
+        h.append("bool_index")
+    if cls != "Ts":
+        h += ["times_one", "times_one", "np_add_zero", "np_add_zero"]
+    return h
+
+
+def apply_history(nap, hist, x, lo, hi, eep=None):
+    if hist == "restrict_wide":
+        if eep is not None:      # the receiver's time support IS the argument (default ep): restrict to those very intervals instead
+            return x.restrict(nap.IntervalSet(G.arr([s for s, _ in eep]), G.arr([e for _, e in eep])))
+        return x.restrict(nap.IntervalSet(lo, hi))
+    if hist == "slice_all":
+        return x[0:len(x)]
+    if hist == "get_all":
+        return x.get(lo, hi)
+    if hist == "bool_index":
+        return x[np.ones(len(x), dtype=bool)]
+    if hist == "times_one":
+        return x * 1
+    if hist == "np_add_zero":
+        return np.add(x, 0)
+    if hist == "saveload":
+        path = os.path.join(tmpdir(), "x.npz")
+        x.save(path)
+        return nap.load_file(path)
+    return x
+
+
+def call_styles():
+    return ["positional", "keyword", "mixed", "keyword_reordered"]
+
+
+def pick_time_form(rng, ticks):
+    """integer / unsigned forms apply to few inputs: when they do, take one of them half of the time"""
+    names = time_forms(ticks)
+    rare = [q for q in names if q.split("_")[0] in ("int64", "int32", "uint64", "uint32", "uint16") or q.startswith("list_int")]
+    return rng.choice(rare) if rare and rng.random() < 0.5 else rng.choice(names)
+
+
+def pick_ep_form(rng, ep):
+    names = ep_forms(ep)
+    rare = [q for q in names if q.split("_")[0] in ("int64", "uint64", "uint32", "uint8", "int", "np.int64", "np.float32") or q in ("scalars", "np_scalars", "0d_arrays")]
+    r = rng.random()
+    if rare and r < 0.4:
+        return rng.choice(rare)
+    names = [q for q in names if q != "saveload"] if r < 0.8 else names       # (the disk round trip is the slow one)
+    return rng.choice(names)
+
+
+def pick_bin_form(rng, b, units):
+    """documented forms (float, np.float64 = a float subclass, Python int) 85 % of the time, a Python int whenever b is a whole number of the unit half of the time"""
+    forms = bin_forms(b, units)
+    ints = [f for f in forms if f[0] == "int"]
+    r = rng.random()
+    if ints and r < 0.5:
+        return ints[0]
+    doc = [f for f in forms if f[2]]
+    und = [f for f in forms if not f[2]]
+    return rng.choice(und) if und and r > 0.85 else rng.choice(doc)
+
+
+def forms_case(nap, n, c, inp, seed, res=None):
+    """One sampled point of the product of argument forms for each of: count with a bin size, count without, bin_average, TsGroup.count (both).
+    Every random choice derives from (seed, n). Returns the violations."""
+    import pandas as pd
+    ts, ep, b = c["ts"], c["ep"], c["bin"]
+    rng = random.Random(seed * 7919 + n)
+    out = []
+    n_s = len(ts)
+
+    def cnt(name):
+        if res is not None:
+            res.count("form:" + name)
+
+    allt = [s for s, _ in ep] + [e for _, e in ep] + ts + [0]
+    lo, hi = min(allt) / 1e9 - 1.0, max(allt) / 1e9 + 1.0
+    inside = any(s <= q <= e for s, e in ep for q in ts)
+
+    def guarded(op, flags, f, documented=True):
+        try:
+            return f()
+        except Exception as ex:
+            if not documented and isinstance(ex, CLEAN):
+                cnt("clean_exception_on_undocumented_bin_form")
+                return None
+            out.append(viol(op, "exception", "%s raised %s: %s" % (op, type(ex).__name__, str(ex)[:160]), inp, dict(flags, exc=type(ex).__name__)))
+            return None
+
+    def ep_mode_of(n_in):
+        """how the intervals reach the call: explicitly, as the time support the receiver was built with, or as its default time support"""
+        modes = ["explicit", "explicit"]
+        if inside:
+            modes.append("support_given")
+        if n_in >= 2 and ts[0] < ts[-1] and (ts[-1] - ts[0]) // b <= 2000:
+            modes.append("support_default")
+        return rng.choice(modes)
+
+    def receiver(cls, tform, mode, epo, dvals=None, cols=None, meta=False):
+        tobj, units = make_time(nap, pd, tform, ts)
+        kw = {}
+        if units != "s" or rng.random() < 0.2:
+            kw["time_units"] = units
+        if mode == "support_given":
+            kw["time_support"] = epo
+        elif mode == "explicit":
+            kw["time_support"] = nap.IntervalSet(lo, hi)        # explicit support: series whose timestamps all coincide keep their samples
+        if cls == "Ts":
+            return nap.Ts(t=tobj, **kw) if rng.random() < 0.3 else nap.Ts(tobj, **kw)
+        if tform == "pd_series":                                   # the pandas forms carry the data
+            if cls == "Tsd":
+                return nap.Tsd(pd.Series(dvals, index=G.arr(ts)), **kw)
+            if cls == "TsdFrame":
+                return nap.TsdFrame(pd.DataFrame(dvals, index=G.arr(ts), columns=cols), **kw)
+            tobj = pd.Index(G.arr(ts))
+        bykw = rng.random() < 0.3                                   # constructor arguments by keyword
+        if isinstance(dvals, LazyArray):
+            kw["load_array"] = False
+        if cls == "Tsd":
+            return nap.Tsd(d=dvals, t=tobj, **kw) if bykw else nap.Tsd(tobj, dvals, **kw)
+        if cls == "TsdFrame":
+            if meta:
+                kw["metadata"] = {"m": list(range(dvals.shape[1]))}
+            if cols is not None:
+                kw["columns"] = cols
+            return nap.TsdFrame(d=dvals, t=tobj, **kw) if bykw else nap.TsdFrame(tobj, dvals, **kw)
+        return nap.TsdTensor(d=dvals, t=tobj, **kw) if bykw else nap.TsdTensor(tobj, dvals, **kw)
+
+    def plain_data(cls):
+        fvs = np.asarray(values_of(ts), float)
+        how = rng.choice(["float64", "float64", "float32", "int64", "int16", "uint8", "bool", "nan", "inf"])
+        cnt("count_receiver_data=" + how)
+        if how in ("nan", "inf") and len(fvs):
+            fvs[::2] = float(how)                                   # a sample whose value is NaN / inf is a sample all the same
+        elif how not in ("nan", "inf"):
+            fvs = fvs.astype(how)
+        if cls == "Tsd":
+            return fvs
+        if cls == "TsdFrame":
+            return np.stack([fvs, fvs * 2], axis=1)
+        return np.stack([fvs, fvs * 2, fvs * 3, fvs * 4], axis=1).reshape(-1, 2, 2)
+
+    def call(x, meth, style, val, epo, units, dt_name, dt, with_ep):
+        """the public call in the sampled style; with_ep False = ep left to its default (None)"""
+        kw_dt = {} if dt_name == "omitted" or meth == "bin_average" else {"dtype": dt}
+        f = getattr(x, meth)
+        if style == "positional":
+            args = [val]
+            if with_ep or units != "s" or kw_dt:
+                args.append(epo if with_ep else None)
+            if units != "s" or kw_dt:
+                args.append(units)
+            if kw_dt:
+                args.append(dt)
+            return f(*args)
+        kw = dict(kw_dt)
+        if with_ep:
+            kw["ep"] = epo
+        elif rng.random() < 0.5:
+            kw["ep"] = None
+        if units != "s" or rng.random() < 0.3:
+            kw["time_units"] = units
+        if style == "keyword":
+            return f(bin_size=val, **kw)
+        if style == "mixed":
+            return f(val, **kw)
+        kw["bin_size"] = val
+        return f(**dict(reversed(list(kw.items()))))
+
+    def exp_ep(mode):
+        return [(ts[0], ts[-1])] if mode == "support_default" else list(ep)
+
+    # ---- A. count with a bin size --------------------------------------------------------------------------------
+    cls = rng.choice(["Ts", "Ts", "Tsd", "TsdFrame", "TsdTensor"])
+    tform = pick_time_form(rng, ts)
+    eform = pick_ep_form(rng, ep)
+    mode = ep_mode_of(n_s)
+    hist = rng.choice(history_forms(cls, n_s))
+    style = rng.choice(call_styles())
+    units = rng.choice(["s", "ms", "us"])
+    bname, bval, documented = pick_bin_form(rng, b, units)
+    dt_name, dt = rng.choice(COUNT_DTYPES)
+    flags = {"widened": True, "t_form": tform, "ep_form": eform, "ep_mode": mode, "history": hist, "call": style, "units": units, "bin_form": bname, "dtype": dt_name}
+    op = cls + ".count"
+    for k_ in ("t=" + tform, "ep=" + eform, "ep_mode=" + mode, "history=" + hist, "call=" + style, "bin=" + bname + "/" + units, "count_dtype=" + dt_name, "class=" + cls):
+        cnt(k_)
+    eep = exp_ep(mode)
+    exp = oracle(ts, eep, b)
+    if dt_name == "bool" and any(e_[1] > 1 for e_ in exp):
+        dt_name, dt = "np.uint8", np.uint8               # a bool cannot hold a count of 2
+        flags["dtype"] = dt_name
+    epo = guarded("IntervalSet", flags, lambda: make_ep(nap, pd, eform, ep))
+    x = None
+    if epo is not None:
+        dv = None if cls == "Ts" else plain_data(cls)
+        colsA = rng.choice([None, ["a", "b"], [7, 3], ["b", "a"], [1, 0]]) if cls == "TsdFrame" else None
+        x = guarded(cls, flags, lambda: apply_history(nap, hist, receiver(cls, tform, mode, epo, dv, colsA, meta=rng.random() < 0.3), lo, hi, None if mode == "explicit" else eep))
+    if x is not None:
+        reps = 2 if hist == "twice" else 1
+        got_prev = None
+        for _rep in range(reps):
+            r = guarded(op, flags, lambda: call(x, "count", style, bval, epo, units, dt_name, dt, mode == "explicit"), documented)
+            if r is None and not documented:
+                r = guarded(op, flags, lambda: call(x, "count", style, float(bval), epo, units, dt_name, dt, mode == "explicit"))
+            if r is None:
+                break
+            got = list(zip([C.to_ns(q) for q in r.t], [int(v) for v in r.values]))
+            part = diff_count(got, exp)
+            if part is None and type(r).__name__ != "Tsd":
+                part = "class"
+            if part is None and r.values.dtype != np.dtype(np.int64 if dt is None else dt):
+                part = "dtype"
+            if part is None and support_of(r) != eep and not (not exp and support_of(r) == []):
+                part = "support"
+            if part is None and got_prev is not None and got != got_prev:
+                part = "second_call"
+            if part:
+                out.append(viol(op, part, "count in another argument form differs from the stated grid / dtype / support", inp, flags, impl=got, expected=exp))
+                break
+            got_prev = got
+        # ---- B. count without a bin size: per-interval counts (closed intervals) summing to len(restrict) ---------
+        want = [sum(1 for q in ts if s <= q <= e) for s, e in eep]
+        styleB = rng.choice(["ep_kw", "positional_None", "all_kw", "units_too"]) if mode == "explicit" else rng.choice(["no_args", "None_None", "dtype_only"])
+        cnt("count_nobin_call=" + styleB)
+        dtB = None if dt_name == "bool" else dt
+        fB = {"ep_kw": lambda: x.count(ep=epo) if dtB is None else x.count(ep=epo, dtype=dtB),
+              "positional_None": lambda: x.count(None, epo) if dtB is None else x.count(None, epo, "s", dtB),
+              "all_kw": lambda: x.count(bin_size=None, ep=epo, time_units="s", dtype=dtB),
+              "units_too": lambda: x.count(ep=epo, time_units=units, dtype=dtB),
+              "no_args": lambda: x.count(),
+              "None_None": lambda: x.count(None, None, units, dtB),
+              "dtype_only": lambda: x.count(dtype=dtB)}[styleB]
+        flagsB = dict(flags, call=styleB)
+        r0 = guarded(cls + ".count(ep=)", flagsB, fB)
+        if r0 is not None:
+            dtw = np.dtype(np.int64) if (dtB is None or styleB == "no_args") else np.dtype(dtB)
+            nres = guarded(cls + ".restrict", flagsB, lambda: len(x.restrict(epo)) if mode != "support_default" else len(x))
+            if [int(v) for v in r0.values] != want or r0.values.dtype != dtw or (nres is not None and sum(want) != nres):
+                out.append(viol(cls + ".count(ep=)", "count", "per-interval counts (another argument form) wrong, wrong dtype or not summing to len(restrict)", inp, flagsB,
+                                impl=[r0.values.tolist(), str(r0.values.dtype)], expected=want))
+
+    # ---- C. bin_average -------------------------------------------------------------------------------------------
+    cls = rng.choice(["Tsd", "TsdFrame", "TsdFrame", "TsdTensor"])
+    tform = pick_time_form(rng, ts)
+    eform = pick_ep_form(rng, ep)
+    mode = ep_mode_of(n_s)
+    hist = rng.choice(history_forms(cls, n_s))
+    style = rng.choice(call_styles())
+    units = rng.choice(["s", "ms", "us"])
+    bname, bval, documented = pick_bin_form(rng, b, units)
+    if bname == "int":
+        documented = False                        # the docstring of bin_average says float
+    dform = rng.choice(DATA_FORMS)
+    ncol = {"Tsd": 1, "TsdFrame": rng.choice([1, 2, 3]), "TsdTensor": 4}[cls]
+    dtp, colvals = data_columns(rng, dform, n_s, ncol)
+    special = dform in ("nan", "inf", "mixed_inf")
+    cols = None
+    if cls == "TsdFrame":
+        cols = rng.choice([None, ["a", "b", "c"], [7, 3, 5], ["b", "a", "c"], [2, 0, 1], ["10", "9", "100"]])
+        cols = cols[:ncol] if cols is not None else None
+    meta = cls == "TsdFrame" and rng.random() < 0.3
+    flags = {"widened": True, "t_form": tform, "ep_form": eform, "ep_mode": mode, "history": hist, "call": style, "units": units, "bin_form": bname, "data": dform,
+             "data_dtype": str(dtp)}
+    op = cls + ".bin_average"
+    for k_ in ("avg_t=" + tform, "avg_ep=" + eform, "avg_ep_mode=" + mode, "avg_history=" + hist, "avg_call=" + style, "avg_bin=" + bname + "/" + units, "avg_data=" + dform,
+               "avg_data_dtype=" + str(dtp), "avg_class=" + cls, "avg_columns=" + ("default" if cols is None else type(cols[0]).__name__ + ("_sorted" if cols == sorted(cols) else "_unsorted"))):
+        cnt(k_)
+    if cls == "TsdFrame" and meta:
+        cnt("avg_frame_with_metadata")
+    darr = np.asarray(colvals, dtype=np.float64).T.astype(dtp) if special else np.asarray(colvals, dtype=object).T.astype(dtp) if n_s else np.zeros((0, ncol), dtype=dtp)
+    darr = darr.reshape((n_s,) if cls == "Tsd" else (n_s, ncol) if cls == "TsdFrame" else (n_s, 2, 2))
+    if rng.random() < 0.25 and n_s:
+        cnt("avg_data_strided_view")
+        darr = np.repeat(darr, 2, axis=0)[::2]                   # data that is a non-contiguous view
+    lazy = tform != "pd_series" and hist in ("none", "twice", "restrict_wide", "slice_all", "get_all") and rng.random() < 0.25
+    if lazy:
+        cnt("avg_data_lazy_array_like(load_array=False)")
+        flags["lazy_data"] = True
+        darr = LazyArray(np.ascontiguousarray(darr))
+    eep = exp_ep(mode)
+    epo = guarded("IntervalSet", flags, lambda: make_ep(nap, pd, eform, ep))
+    y = None
+    if epo is not None:
+        y = guarded(cls, flags, lambda: apply_history(nap, hist, receiver(cls, tform, mode, epo, darr, cols, meta), lo, hi, None if mode == "explicit" else eep))
+    if y is not None:
+        reps = 2 if hist == "twice" else 1
+        for _rep in range(reps):
+            r = guarded(op, flags, lambda: call(y, "bin_average", style, bval, epo, units, "omitted", None, mode == "explicit"), documented)
+            if r is None and not documented:
+                r = guarded(op, flags, lambda: call(y, "bin_average", style, float(bval), epo, units, "omitted", None, mode == "explicit"))
+            if r is None:
+                break
+            wantcols = list(range(ncol)) if cols is None else cols
+            if type(r).__name__ != cls or r.values.shape[1:] != darr.shape[1:] or (cls == "TsdFrame" and list(r.columns) != wantcols):
+                out.append(viol(op, "shape", "bin_average (another argument form) changed the class / trailing shape / column labels", inp, flags,
+                                impl=[type(r).__name__, list(r.values.shape), [str(q) for q in getattr(r, "columns", [])]]))
+                break
+            flat = np.asarray(r.values, dtype=np.float64).reshape(len(r), ncol)
+            rt = [C.to_ns(q) for q in r.t]
+            part = None
+            for k in range(ncol):
+                got = list(zip(rt, flat[:, k].tolist()))
+                expk = expected_means(ts, colvals[k], eep, b)
+                part = diff_means(got, expk)
+                if part:
+                    out.append(viol(op, part, "bin_average (another argument form / data dtype / special values) differs from the per-bin mean on the stated grid, column %d" % k, inp,
+                                    flags, impl=got, expected=[(c2, str(m)) for c2, m in expk]))
+                    break
+            if part:
+                break
+            if support_of(r) != eep and not (not rt and support_of(r) == []):
+                out.append(viol(op, "support", "support of bin_average (another argument form) is not ep", inp, flags, impl=support_of(r)))
+                break
+
+    # ---- C'. time_units in another letter case: the statement knows s / ms / us only; either a clean exception or the lower-case unit's result ----
+    if x is not None and y is not None and rng.random() < 0.15:
+        u = rng.choice(["ms", "us", "s"])
+        bad = rng.choice([u.upper(), u.capitalize(), u + " "])
+        cnt("units_other_case")
+        for opx, recv, meth in ((type(x).__name__ + ".count", x, "count"), (type(y).__name__ + ".bin_average", y, "bin_average")):
+            try:
+                r = getattr(recv, meth)(b / UNITS[u], epo, bad) if rng.random() < 0.5 else getattr(recv, meth)(b / UNITS[u], ep=epo, time_units=bad)
+            except CLEAN:
+                continue
+            except Exception as ex:
+                out.append(viol(opx, "exception", "time_units=%r raised %s" % (bad, type(ex).__name__), inp, {"widened": True, "units_other_case": True, "exc": type(ex).__name__}))
+                continue
+            part = diff_count([(C.to_ns(q), 0) for q in r.t], [(c2, 0) for c2, _ in oracle(ts, ep, b)])
+            if part:
+                out.append(viol(opx, part, "time_units=%r accepted and read as another unit" % bad, inp, {"widened": True, "units_other_case": True}, impl=[C.to_ns(q) for q in r.t]))
+
+    # ---- D. TsGroup.count (two form cases out of three: building a group is the slow part) -------------------------
+    if rng.random() < 1 / 3:
+        return out
+    gform = rng.choice(["dict_ts", "list", "list", "dict_arrays", "dict_arrays", "dict_lists", "dict_lists", "bypass_check", "bypass_check", "metadata", "metadata", "positional_support",
+                        "positional_support", "empty_group", "empty_group", "empty_member", "empty_member", "shared_member", "shared_member", "saveload", "dict_tsd_members", "dict_tsd_members"])
+    kform = rng.choice(["0..n-1", "ints_unsorted", "negative", "sparse_big", "str_multi_digit", "float_integral", "np_int64", "str_and_int"])
+    keysets = {"0..n-1": [0, 1, 2, 3], "ints_unsorted": [5, 2, 3, 9], "negative": [-1, 7, 3, -10], "sparse_big": [1000, 20, 3, 100000], "str_multi_digit": ["10", "9", "100", "2"],
+               "float_integral": [2.0, 0.0, 11.0, 1.0], "np_int64": [np.int64(4), np.int64(1), np.int64(12), np.int64(0)], "str_and_int": ["12", 5, "3", 40]}
+    keys = keysets[kform]
+    mem_ts = [ts, ts[::2], ts[:1], ts[1::2]]
+    nmem = 4 if gform in ("empty_member", "shared_member") else 3
+    if gform == "empty_member":
+        mem_ts[3] = []
+    if gform == "shared_member":
+        mem_ts[3] = ts
+    if gform == "list":
+        keys, kform = [0, 1, 2, 3], "0..n-1"
+    if gform == "empty_group":
+        nmem = 0
+    keys = keys[:nmem]
+    members = {int(k): mem_ts[i] for i, k in enumerate(keys)}
+    labels = sorted(members)
+    gunits = rng.choice(["s", "ms", "us"]) if gform in ("dict_arrays", "dict_lists") else "s"
+    eform = pick_ep_form(rng, ep)
+    gmode = rng.choice(["explicit", "explicit", "support_given"])
+    ghist = rng.choice(["none", "none", "subset", "restrict", "twice"]) if nmem else "none"
+    style = rng.choice(call_styles())
+    units = rng.choice(["s", "ms", "us"])
+    bname, bval, documented = pick_bin_form(rng, b, units)
+    dt_name, dt = rng.choice(COUNT_DTYPES)
+    if dt_name == "bool":
+        dt_name, dt = "np.uint16", np.uint16
+    flags = {"widened": True, "group_form": gform, "keys": kform, "ep_form": eform, "ep_mode": gmode, "history": ghist, "call": style, "units": units, "bin_form": bname,
+             "dtype": dt_name, "member_units": gunits}
+    for k_ in ("group=" + gform, "group_keys=" + kform, "group_ep=" + eform, "group_ep_mode=" + gmode, "group_history=" + ghist, "group_call=" + style,
+               "group_bin=" + bname + "/" + units, "group_dtype=" + dt_name, "group_member_units=" + gunits):
+        cnt(k_)
+    epo = guarded("IntervalSet", flags, lambda: make_ep(nap, pd, eform, ep))
+    if epo is None:
+        return out
+
+    def build_group():
+        sup = epo if gmode == "support_given" else nap.IntervalSet(lo, hi)
+        tA = G.arr(ts)
+        if gform in ("dict_arrays", "dict_lists"):
+            f = {"s": 1e9, "ms": 1e6, "us": 1e3}[gunits]
+            raw = [np.asarray(m, dtype=np.float64) / f for m in mem_ts[:nmem]]
+            data = {k: (raw[i] if gform == "dict_arrays" else raw[i].tolist()) for i, k in enumerate(keys)}
+            return nap.TsGroup(data, time_support=sup, time_units=gunits)
+        wide = nap.IntervalSet(lo, hi)
+        if gform == "dict_tsd_members":
+            objs = [nap.Tsd(G.arr(m), np.arange(len(m)), time_support=wide) for m in mem_ts[:nmem]]
+        else:
+            objs = [nap.Ts(G.arr(m), time_support=wide) if i != 2 else nap.Tsd(G.arr(m), np.asarray(values_of(m), float), time_support=wide) for i, m in enumerate(mem_ts[:nmem])]
+        if gform == "shared_member":
+            objs[3] = objs[0]                                      # the same live object under two keys
+        if gform == "list":
+            return nap.TsGroup(objs, time_support=sup)
+        data = {k: objs[i] for i, k in enumerate(keys)}
+        if gform == "bypass_check":
+            if gmode == "support_given":                           # bypass_check skips the restriction: hand over members that already lie in the support
+                data = {k: o.restrict(sup) for k, o in data.items()}
+            return nap.TsGroup(data, time_support=sup, bypass_check=True)
+        if gform == "metadata":
+            return nap.TsGroup(data, time_support=sup, metadata={"area": ["x%d" % i for i in range(nmem)]})
+        if gform == "positional_support":
+            return nap.TsGroup(data, sup, "s", False)
+        if gform == "saveload":
+            path = os.path.join(tmpdir(), "g.npz")
+            nap.TsGroup(data, time_support=sup).save(path)
+            return nap.load_file(path)
+        return nap.TsGroup(data, time_support=sup)
+
+    g = guarded("TsGroup", flags, build_group)
+    if g is None:
+        return out
+    if ghist == "subset":
+        sub = labels[::2]
+        pick = rng.choice(["list", "array", "bool"])
+        cnt("group_subset_by=" + pick)
+        g = guarded("TsGroup.__getitem__", flags, lambda: g[sub] if pick == "list" else g[np.asarray(sub)] if pick == "array" else g[np.asarray([k in sub for k in labels])])
+        labels = sub
+    elif ghist == "restrict":
+        g = guarded("TsGroup.restrict", flags, lambda: g.restrict(epo))
+        gmode = "support_given"
+    if g is None:
+        return out
+    gprev = None
+    for _rep in range(2 if ghist == "twice" else 1):
+        gc = guarded("TsGroup.count", flags, lambda: call(g, "count", style, bval, epo, units, dt_name, dt, gmode == "explicit"), documented)
+        if gc is None and not documented:
+            gc = guarded("TsGroup.count", flags, lambda: call(g, "count", style, float(bval), epo, units, dt_name, dt, gmode == "explicit"))
+        if gc is None:
+            break
+        gt = [C.to_ns(q) for q in gc.t]
+        part, what = None, ""
+        if type(gc).__name__ != "TsdFrame" or gc.values.ndim != 2:
+            part, what = "class", "group count is not a TsdFrame"
+        elif [int(q) for q in gc.columns] != labels or any(isinstance(q, str) for q in gc.columns):
+            part, what = "labels", "columns are not the sorted (integer) keys"
+        elif nmem and gc.values.dtype != np.dtype(np.int64 if dt is None else dt):
+            part, what = "dtype", "group count dtype is not the requested one"
+        elif not nmem:
+            part = diff_count([(q, 0) for q in gt], [(c2, 0) for c2, _ in oracle([], ep, b)])
+            what = "rows of an EMPTY group's count are not the stated grid"
+        else:
+            for k, key in enumerate(labels):
+                gotk = list(zip(gt, [int(v) for v in gc.values[:, k]]))
+                part = diff_count(gotk, oracle(members[key], ep, b))
+                if part:
+                    what = "group count column %d differs from member %d's count on the stated grid" % (k, key)
+                    break
+        if part is None and support_of(gc) != list(ep) and not (not gt and support_of(gc) == []):
+            part, what = "support", "support of the group count is not ep"
+        snap = gc.values.tolist()
+        if part is None and gprev is not None and snap != gprev:
+            part, what = "second_call", "the same call on the same live group gave another result"
+        if part:
+            out.append(viol("TsGroup.count", part, what + " (another argument form)", inp, flags, impl=[gt, snap, [str(q) for q in gc.columns]]))
+            break
+        gprev = snap
+    styleB = rng.choice(["ep_kw", "positional_None", "all_kw"]) if gmode == "explicit" else rng.choice(["no_args", "dtype_only"])
+    cnt("group_nobin_call=" + styleB)
+    fB = {"ep_kw": lambda: g.count(ep=epo, dtype=dt) if dt is not None else g.count(ep=epo), "positional_None": lambda: g.count(None, epo, units, dt),
+          "all_kw": lambda: g.count(dtype=dt, time_units=units, ep=epo, bin_size=None), "no_args": lambda: g.count(), "dtype_only": lambda: g.count(dtype=dt)}[styleB]
+    flagsB = dict(flags, call=styleB)
+    g0 = guarded("TsGroup.count(ep=)", flagsB, fB)
+    if g0 is not None:
+        wantg = [[sum(1 for q in members[key] if s <= q <= e) for key in labels] for s, e in ep]
+        dtw = np.dtype(np.int64) if (dt is None or styleB == "no_args") else np.dtype(dt)
+        if [int(q) for q in g0.columns] != labels or [[int(v) for v in row] for row in g0.values] != wantg or (nmem and g0.values.dtype != dtw):
+            out.append(viol("TsGroup.count(ep=)", "count", "group per-interval counts / labels / dtype wrong (another argument form)", inp, flagsB,
+                            impl=[g0.values.tolist(), str(g0.values.dtype), [str(q) for q in g0.columns]], expected=wantg))
+    return out
+
+
 def run(res, tier, seed, only=None):
     nap, J = _nap()
     warnings.simplefilter("ignore")
@@ -372,7 +1154,29 @@ def run(res, tier, seed, only=None):
                 "half a tick before and half a tick beyond a bin centre); + (public API only, statement in exact rationals) bin sizes that are NOT a whole number of ns "
                 "(1/1024 s, 1/256 us, 1/3 ms, 1/30000 s ...; samples next to the exact and to the ns-rounded bin edges) and positive bin sizes below 0.5 ns; time offsets 0, "
                 "-5.9 ms, -1.95 s, +1 day. Whole-ns cases are compared with the extracted model AND the brute-force statement of the property; 7 count dtypes rotate. "
-                "non-trivial = at least one sample; distinct = distinct (ts, ep, b)")
+                "non-trivial = at least one sample; distinct = distinct (ts, ep, b). "
+                "ARGUMENT FORMS (widening; same abstract input, same oracle functions; every whole-ns public case of the three kinds below and every second other one in quick, "
+                "every twentieth in thorough; one point of the product of the axes per operation, drawn from random.Random(seed*7919+n)): "
+                "[kinds] us_lattice = instants and bin size whole numbers of us / ms with origins 0, straddling 0, negative, +-1e5 s; many_intervals = 5..12 intervals, most holding "
+                "zero or one sample; all_equal = every timestamp coincides (explicit time support). "
+                "[axis 1, data] bin_average on float64/float32/int64..int8/uint8..uint64/bool data, the extreme values of each small dtype, NaN, +inf, -inf and both infinities in one "
+                "bin (mean = IEEE mean: NaN / +-inf), zeros, all-equal data, data that is a strided view; count on receivers holding any of these (a NaN sample is a sample). "
+                "[axis 2, time arguments] the receiver's t as ndarray / list / tuple / pandas Index / pandas Series or DataFrame / another object's TsIndex / x.t / read-only / "
+                "strided view / float32 (exactly representable instants) / float ms and us / int64 int32 uint64 uint32 uint16 arrays and lists of Python ints in us and ms; the "
+                "IntervalSet from arrays / lists / tuples / 2-d array / DataFrame / Series / TsIndex + x.t / another IntervalSet / Python, numpy and 0-d scalars / Python-int "
+                "scalars / float ms and us / int64 uint64 uint32 uint8 arrays in us / keyword order swapped / with metadata; the bin size as float, np.float64, Python int, and "
+                "(undocumented: a TypeError / ValueError or the stated result) np.float32, np.int64, np.int32, 0-d array, bin_average with a Python int. "
+                "[axis 3, parameters] every call positional / keyword / mixed / keywords in reverse order; ep explicit, omitted, None; bin_size None explicit; dtype omitted, None and "
+                "17 spellings (types, strings, np.dtype, int, float, bool when no count exceeds 1) also WITHOUT a bin size; time_units combined with dtype and ep. "
+                "[axis 4, units] s / ms / us for the bin size, the receiver's times, the IntervalSet and the raw members of a TsGroup; time_units in another letter case must raise "
+                "or mean the lower-case unit. [axis 5, placement] see kinds; samples on interval ends and bin edges throughout. "
+                "[axis 6, degenerate] empty series in every form, one sample, coinciding timestamps, empty IntervalSet, empty TsGroup (rows = the stated grid, no columns), a group "
+                "with an empty member, the same live object under two keys, keys 0..n-1 / unsorted / negative / sparse and large / multi-digit strings / integral floats / np.int64 / "
+                "strings mixed with ints. [axis 7, classes] Ts, Tsd, TsdFrame (default, string, integer, unsorted column labels, with metadata; 1..3 columns), TsdTensor; TsGroup from "
+                "a dict of Ts, of Tsd, a list, raw arrays or lists with time_units, with metadata, positional time_support, bypass_check=True. "
+                "[axis 8, histories] the receiver after restrict / x[0:n] / get / boolean index / x*1 / np.add(x,0) / save+load, the same call twice on one live object; the "
+                "IntervalSet after slicing a larger one, intersect, save+load; the group after g[[keys]] (list, array, boolean), restrict, save+load; ep taken from the time support "
+                "the receiver was built with and from its default time support (first..last sample).")
     res.exhaustive = tier == "thorough"
     cs = [shifted(c, n) for n, c in enumerate(cases(tier, seed))]
     if only is not None:
@@ -385,12 +1189,13 @@ def run(res, tier, seed, only=None):
         lines.append("bin_average\t%s\t%s\t%s\t%d" % (C.fmt_ints(ts), C.fmt_ints(values_of(ts)), C.fmt_iset(ep), b))
     out = C.run_model(lines) if lines else []
     stride = 5 if tier == "quick" else 3
+    fstride = 2 if tier == "quick" else 20
     mi = -1
     for n, c in enumerate(cs):
         ts, ep, b, kind = c["ts"], c["ep"], c["bin"], c["kind"]
         whole = "value" not in c
         mi += 1 if whole else 0
-        inp = {"ts": ts, "ep": ep, "bin": b if whole else str(b), "kind": kind, "n": n}
+        inp = {"ts": ts, "ep": ep, "bin": b if whole else str(b), "kind": kind, "n": n, "seed": seed}
         if not whole:
             inp.update(value=c["value"], units=c["units"])
         res.case((tuple(ts), tuple(ep), b), nontrivial=len(ts) > 0)
@@ -425,7 +1230,7 @@ def run(res, tier, seed, only=None):
             res.float_ambiguous += 1
             continue
         # public API: a subsample of the lattice cases, every odd / non-whole / sub-ns case
-        if n % stride == 0 or kind in ("not_whole_ns", "below_half_ns") or (kind == "odd_ns" and n % 2 == 0):
+        if n % stride == 0 or kind in ("not_whole_ns", "below_half_ns") or (kind == "odd_ns" and n % 2 == 0) or kind in NOSHIFT:
             res.evaluations += 1
             res.count("public_cases")
             try:
@@ -434,6 +1239,16 @@ def run(res, tier, seed, only=None):
                 vp = [viol("public", "exception", "harness-level exception in the public calls %s: %s" % (type(ex).__name__, str(ex)[:160]), inp,
                            {"exc": type(ex).__name__, "bin_whole_ns": bool(whole), "bin_below_half_ns": bool(b < Fr(1, 2))})]
             res.violations.extend(vp)
+            # the same case in other ARGUMENT FORMS (whole-ns bin sizes; the kinds made for it always, the others on a stride)
+            if whole and (kind in NOSHIFT or (n // stride) % fstride == 0):
+                res.evaluations += 1
+                res.count("form_cases")
+                try:
+                    vf = forms_case(nap, n, c, inp, seed, res)
+                except Exception as ex:
+                    vf = [viol("forms", "exception", "harness-level exception in the argument-form calls %s: %s" % (type(ex).__name__, str(ex)[:160]), inp,
+                               {"widened": True, "exc": type(ex).__name__})]
+                res.violations.extend(vf)
             if not whole and len(res.samples) < 5 and n % 97 == 0:
                 res.sample({"ts": ts, "ep": ep, "bin_ticks": str(b), "value": c["value"], "units": c["units"], "violations": len(vp)})
 
@@ -464,6 +1279,8 @@ def replay(payload):
         vs += vk
     try:
         vs += public_case(nap, n, c, inp)
+        if "value" not in c:
+            vs += forms_case(nap, n, c, inp, int(inp.get("seed", 0)))
     except Exception as ex:
         print("public calls raised", type(ex).__name__, ex)
         return 1
